@@ -622,11 +622,21 @@ def untuple_case(c):
     return c
 
 
+
+def replay_case(replay):
+    """the case of a replay file: a violation's case, or the case of the first recorded disagreement"""
+    if replay.get("case"):
+        return replay["case"]
+    for d in replay.get("correspondence_disagreements", []) + replay.get("disagreements", []):
+        if d.get("case"):
+            return d["case"]
+    raise KeyError("replay file holds no case")
+
 def run(ctx):
     import grid
     pubs, goals, scs = [], [], []
     if ctx.replay:
-        c = ctx.replay["case"]
+        c = replay_case(ctx.replay)
         if c.get("kind") == "pub":
             pubs = [untuple_case(c["c"])]
         elif c.get("kind") == "goal":
